@@ -261,6 +261,19 @@ def run(chk: core.Check):
     for _ in range(2000 if chk.tier == "thorough" else 300):
         names, anc, kind = random_graph(rng)
         cases.append((names, anc, "random-" + kind))
+    # long dependency chains (with and without shortcut edges, late roots), 2..24 nodes
+    for k in range(2, 25 if chk.tier == "thorough" else 17):
+        names = [f"c{j:02d}" for j in range(k)]
+        rng.shuffle(names)
+        anc = {n: set() for n in names}
+        for j in range(1, k):
+            anc[names[j]].add(names[j - 1])
+        cases.append((names, {n: set(v) for n, v in anc.items()}, "chain-plain"))
+        anc2 = {n: set(v) for n, v in anc.items()}
+        for _ in range(rng.randrange(1, 4)):
+            a, b = sorted(rng.sample(range(k), 2))
+            anc2[names[b]].add(names[a])
+        cases.append((names, anc2, "chain-shortcuts"))
     mg = model_graphs()
     for name, kw, g, err in mg:
         if g is None:
